@@ -8,10 +8,17 @@ Property-level predicates on the implementation: F2_ab,kl + conj(F2_ba,lk) = gen
 filter function, an independent nested Gauss-Legendre/expm quadrature of the defining double integral,
 both code paths equal, finiteness.
 
-Failures whose cause is the floating-point cancellation of numeric._second_order_integral next to (not at)
-a resonance get the signature 'c10-near-resonance-cancellation' -- only when (i) every wrong entry of the
-segment integral has a denominator d with 0 < |d*dt| < 1e-4 and (ii) the implementation with the segment
-integral replaced by its exact value passes the same test; anything else is reported under its own signature.
+History: up to /repo c3a36ea the segment integral lost all accuracy next to (not at) a resonance (exact-zero
+masks + cos(x)-1 cancellation; see docs/notes/C10.md).  A failure with that cause still gets the signature
+'c10-near-resonance-cancellation' -- only when (i) every wrong entry of the segment integral has a denominator d
+with 0 < |d*dt| < 1e-4 and (ii) the implementation with the segment integral replaced by its exact value passes
+the same test -- but it is no longer a known finding: it would be a regression and is reported as a violation.
+
+Tolerance: 1e-6 of the largest entry of the frequency slice + 2e-7 of the a-priori bound (sum_g dt_g A_g)^2/2 of
+the entries (A_g = max_ak sum_ij |X^g_ak(i,j)|): the code replaces denominators with |x dt| <= 1e-8 by their limit
+and divides by denominators down to 1e-8/dt, so each entry of the segment integral carries an absolute error up
+to ~4.5e-8 dt^2 (theorem C10_soi_bound for the truncation part), which does not shrink when the slice is small
+by cancellation between segments.
 """
 import re
 import numpy as np
@@ -26,8 +33,8 @@ from ..common import carr_lit, rarr_lit, rvec_lit
 ID = 'C10'
 TRUSTED = ['numpy.linalg.eigh is an oracle: its output is validated per case in interval arithmetic '
            '(H V = V D, V^dagger V = 1, residual <= 1e-11*scale) and passed to the model',
-           'floating-point rounding of the implementation is absorbed in the comparison tolerance (1e-6 relative to '
-           'the largest entry of the frequency slice: the accuracy the property asks for), not proved',
+           'floating-point rounding of the implementation is absorbed in the comparison tolerance (1e-6 of the largest '
+           'entry of the frequency slice + 2e-7 of the a-priori bound of the entries), not proved',
            'classification of a failure as the known near-resonance cancellation uses a 90-digit decimal evaluation '
            'of the segment integral (harness code, tools/ffv/props/c10.py)']
 ASSUMPTIONS = ['piecewise-constant pulses with d<=3, <=3 segments, <=2 noise operators, Hermitian bases in the sampled '
@@ -35,6 +42,7 @@ ASSUMPTIONS = ['piecewise-constant pulses with d<=3, <=3 segments, <=2 noise ope
                'F2_plus_adjoint is exact only where no first-order segment integral is on its Taylor branch '
                '(hypothesis of the theorem); the sampled predicate uses 1e-6']
 REL_TOL = 1e-6
+NAT_TOL = 2e-7
 KNOWN_SIG = 'c10-near-resonance-cancellation'
 SMALL = 1e-4            # window of the known finding: 0 < |d*dt| < SMALL for one of the three denominators
 
@@ -231,6 +239,25 @@ def quad_F2(p, om, n=20):
     return res
 
 
+def nat_scale(p):
+    """a-priori bound (sum_g dt_g A_g)^2/2 of |F2| entries, A_g = max_ak sum_ij |s_a (V^dag N_a V)_ij (W^dag C_k W)_ji|"""
+    basis = p.basis.view(np.ndarray)
+    tot = 0.0
+    for g, dt in enumerate(p.dt):
+        V, Q = p.eigvecs[g], p.propagators[g]
+        W = Q.conj().T @ V
+        BT = np.array([W.conj().T @ C @ W for C in basis])
+        NT = np.array([p.n_coeffs[a, g] * (V.conj().T @ p.n_opers[a] @ V) for a in range(len(p.n_opers))])
+        A = np.abs(np.einsum('aij,kji->akij', NT, BT)).sum(axis=(2, 3)).max() if len(NT) and len(BT) else 0.0
+        tot += dt * A
+    return tot * tot / 2
+
+
+def tol_of(p, Fo):
+    """absolute tolerance for a frequency slice"""
+    return REL_TOL * max(np.abs(Fo).max(), 1e-300) + NAT_TOL * nat_scale(p)
+
+
 def slice_err(A, Bq, o):
     sc = max(np.abs(Bq[..., o]).max(), np.abs(A[..., o]).max(), 1e-300)
     return np.abs(A[..., o] - Bq[..., o]).max() / sc
@@ -245,18 +272,19 @@ def predicates(p, om, F2, Fgen, Fq):
             continue
         S = F2[..., o] + F2[..., o].conj().transpose(1, 0, 3, 2)
         sc = max(np.abs(Fgen[..., o]).max(), np.abs(F2[..., o]).max(), 1e-300)
-        e = np.abs(S - Fgen[..., o]).max() / sc
-        if e > REL_TOL:
-            bad.append((o, 'adjoint', 'F2 + conj(F2^T) differs from the generalized filter function: rel %.3g' % e))
+        tol = 2 * tol_of(p, max(np.abs(Fgen[..., o]).max(), np.abs(F2[..., o]).max()))
+        e = np.abs(S - Fgen[..., o]).max()
+        if e > tol:
+            bad.append((o, 'adjoint', 'F2 + conj(F2^T) differs from the generalized filter function: rel %.3g' % (e / sc)))
         if Fq is not None:
-            e = slice_err(F2, Fq, o)
-            if e > REL_TOL:
-                bad.append((o, 'integral', 'F2 differs from nested quadrature of the defining integral: rel %.3g' % e))
+            e = np.abs(F2[..., o] - Fq[..., o]).max()
+            if e > tol_of(p, max(np.abs(F2[..., o]).max(), np.abs(Fq[..., o]).max())):
+                bad.append((o, 'integral', 'F2 differs from nested quadrature of the defining integral: rel %.3g' % slice_err(F2, Fq, o)))
     return bad
 
 
 # ---------------------------------------------------------------- generators
-DELTAS = [1e-12, -1e-12, 1e-10, 1e-9, -1e-9, 1e-8, 1e-7, -1e-7, 1e-6, -1e-6, 1e-5, 1e-4, -1e-4, 1e-3, -1e-3]
+DELTAS = [1e-12, -1e-12, 1e-10, 1e-9, -1e-9, 0.9e-8, 1e-8, -1.1e-8, 1e-7, -1e-7, 1e-6, -1e-6, 1e-5, 1e-4, -1e-4, 1e-3, -1e-3]
 
 
 def ladder_pulse(r, G):
@@ -326,13 +354,13 @@ def pulse_from_input(inp):
 # ---------------------------------------------------------------- Coq case text
 def coq_F2_case(name, p, w, F2o, with_eig):
     """one frequency: tally of the implementation's F2[..., o] against the model enclosure (IOB)"""
-    scale = max(np.abs(F2o).max(), 1e-300)
     Hs = np.einsum('ijk,il->ljk', p.c_opers, p.c_coeffs)
     hscale = max(1.0, np.abs(Hs).max())
     t = (f"Definition {name} : N*N*N :=\n" + emit.pulse_bindings(p, [w], True) +
          f"  let thr := dy O foi_thr in\n"
-         f"  let Fm := model_F2 O {p.d} thr ev Vs om bs ns nc dts in\n"
-         f"  let r := tallyC O {emit.tol_lit(REL_TOL * scale, True)} {carr_lit(F2o.reshape(-1))}%Z (flat5 Fm) in\n")
+         f"  let thr2 := dy O soi_thr in\n"
+         f"  let Fm := model_F2 O {p.d} thr thr2 ev Vs om bs ns nc dts in\n"
+         f"  let r := tallyC O {emit.tol_lit(tol_of(p, F2o), True)} {carr_lit(F2o.reshape(-1))}%Z (flat5 Fm) in\n")
     if with_eig:
         t += f"  tadd (tally_eig O {p.d} {emit.tol_lit(1e-11 * hscale, True)} Hs Vs ev) r.\n"
     else:
@@ -392,12 +420,12 @@ def run_cases(ctx, cases, failures, samples=None):
                 test = lambda Fx: not predicates(p, np.array([w]), Fx, Fg1, None)
             elif obs == 'integral':
                 Fq1 = Fq[..., o:o + 1]
-                test = lambda Fx: slice_err(Fx, Fq1, 0) <= REL_TOL
+                test = lambda Fx: np.abs(Fx - Fq1).max() <= tol_of(p, max(np.abs(Fx).max(), np.abs(Fq1).max()))
             else:
                 test = None
             inp1 = dict(inp, omega=np.array([w]), freq_class=ft[o])
             if test is not None and classify(ctx, p, w, test):
-                failures.append(dict(kind='prop-known', observable=obs, signature=KNOWN_SIG, detail=det + ' [%s]' % ft[o], input=inp1))
+                failures.append(dict(kind='prop', observable=obs, signature=KNOWN_SIG, detail=det + ' [%s] (regression of c3a36ea)' % ft[o], input=inp1))
             else:
                 failures.append(dict(kind='prop', observable=obs, signature='c10-' + obs, detail=det + ' [%s]' % ft[o], input=inp1))
         # frequency shifts against the model's trapezoidal rule applied to the implementation's F2
@@ -461,7 +489,7 @@ def run_cases(ctx, cases, failures, samples=None):
             # known cancellation iff the table errors are confined to small non-zero denominators and the
             # implementation with the exact segment integral agrees with the model enclosure
             if exact_ok.get((ci, o), False):
-                failures.append(dict(kind='corr-known', observable='F2 vs model', signature=KNOWN_SIG, detail=det, input=inp1))
+                failures.append(dict(kind='corr', observable='F2 vs model', signature=KNOWN_SIG, detail=det + ' (regression of c3a36ea)', input=inp1))
             else:
                 failures.append(dict(kind='corr', observable='F2 vs model', signature='c10-corr', detail=det, input=inp1))
         elif x[0] == 0:
@@ -512,14 +540,14 @@ def replay(ctx, rep):
 
 
 def search(ctx, broken):
-    """a proof obligation broke: look harder; only failures that are NOT the known cancellation are returned"""
+    """a proof obligation broke: look harder for a concrete failing input"""
     r = ctx.rng(99)
     out = []
     for rnd in range(4):
         cases = [make_case(r, i, True) for i in range(10)]
         failures = []
         run_cases(ctx, cases, failures)
-        out = [dict(f, broken_obligations=broken) for f in failures if f['signature'] != KNOWN_SIG]
+        out = [dict(f, broken_obligations=broken) for f in failures]
         if out:
             break
     return out[:3]
